@@ -1,4 +1,5 @@
 import MLPE.Props.C04
+import MLPE.Proofs.SafeDemo
 
 /-!
 # C09 — switch-case runs exactly the selected branch and routes its value
@@ -12,7 +13,17 @@ General facts of the engine model (every program, every state):
 * case edges are invisible in every reduced DAG, so a case node is part of a DAG only through the switch that
   selected it or through another declared dependency (`C09_case_edges_filtered`): non-selected cases are not
   launched by the switch (laziness outside recurrent subgraphs; inside them see the finding in DESIGN §5).
-Routing / liveness for private cases in every schedule is tied by lock-step and checked by the `Sem` monitors.
+**Pipelines with switches only — any nesting, shared cases, shared decision nodes — in every reachable state, under
+every schedule (theorems at the end of the file; `Proofs/Safe.lean`)**: for every solution `val` of the dataflow
+equations with switches (`SolutionSw`: a switch node has the value of the case whose label its decision node returned),
+* the decision a switch records is the semantic one (`C09_switch_decision_is_semantic`);
+* every stored result is the solution's value (`C09_switch_results_agree`) — in particular the value routed to a
+  consumer of the switch is the selected case's;
+* every body invocation gets exactly the declared arguments computed from the solution, all of its sources having
+  values (`C09_switch_invocation_arguments`);
+* a returned value is `val output` (`C09_switch_returned_value`).
+These are *safety* statements (what is stored, passed and returned is right); that a switch pipeline terminates is
+tied by lock-step with the deadlock oracle, not proved.
 -/
 namespace MLPE.Eng
 open MLPE
@@ -74,5 +85,96 @@ theorem C09_case_edges_filtered (P : Program) (s : St) (e : Edge) (h : e.case.is
 theorem C09_consumer_gets_selected_case_value (kw : Kwargs) (k : String) (s : St) (c : Node) :
     (k, s.getHid c) ∈ insertKw kw k (s.getHid c) := by
   simp [insertKw, List.partition_eq_filter_filter]
+
+/-! ### Pipelines with switches only: safety in every reachable state, under every schedule -/
+
+/-- **the recorded decision is the semantic one**: the label is the value of the decision node in the dataflow
+semantics, the case is the declared case of that label, and the switch node's value is that case's value -/
+theorem C09_switch_decision_is_semantic (P : Program) (val : Node → Option Val) (hsw : SwP P) (hsol : SolutionSw P val)
+    (s : St) (h : Reach P s) (S : Node) (l : Label) (c : Node) (hs : s.sw S = some (l, c))
+    (hS : P.g.isSwitch S = true) :
+    switchLabelV P val S = some (.str l) ∧ ((switchCases P S).filter (·.1 == l)).getLast? = some (l, c) ∧
+    val S = val c := by
+  have hc := (safe_reach hsw hsol h).data.swOK S l c hs
+  refine ⟨hc.1, hc.2, ?_⟩
+  rw [hsol.sw S hS, hc.sel]; rfl
+
+/-- **every stored result is the value the dataflow semantics assigns to its node** -/
+theorem C09_switch_results_agree (P : Program) (val : Node → Option Val) (hsw : SwP P) (hsol : SolutionSw P val)
+    (s : St) (h : Reach P s) (n : Node) (v : Val) (hr : s.res n = some v) :
+    val n = some v ∧ v.isRecur = false ∧ v.isExc = false :=
+  ⟨((safe_reach hsw hsol h).data.agree n v hr).1, (safe_reach hsw hsol h).data.vals n v hr⟩
+
+/-- **every body invocation gets the declared arguments**: a task that is executing (or has just executed) attempt `k`
+of node `n` with arguments `kw` — for a switch parameter the value of the selected case, as `val` of the switch node -/
+theorem C09_switch_invocation_arguments (P : Program) (val : Node → Option Val) (hsw : SwP P)
+    (hsol : SolutionSw P val) (s : St) (h : Reach P s) (i : Nat) (tk : Task) (hi : s.tasks[i]? = some tk)
+    (d : DagRef) (n : Node) (f : Bool) (k : Nat) (kw : Kwargs) (inv : Nat)
+    (hf : Frame.node d n f (.body k kw inv) ∈ tk.frames) :
+    kw = kwFrom P val n ∧ (∀ p ∈ P.g.preds n, (val p).isSome = true) ∧ inv = 0 ∧ 1 ≤ k ∧ k ≤ (P.cfg n).attemptsEff := by
+  obtain ⟨_, _, _, _, a⟩ := (safe_reach hsw hsol h).frames i tk hi (by simp) _ hf
+  refine ⟨a.kw_eq, ?_, a.inv0, a.kpos, a.kle⟩
+  have := a.preds
+  rw [List.all_eq_true] at this
+  exact this
+
+/-- **a returned value is the dataflow value of the output node** -/
+theorem C09_switch_returned_value (P : Program) (val : Node → Option Val) (hsw : SwP P) (hsol : SolutionSw P val)
+    (s : St) (h : Reach P s) (v : Val) (ho : s.outcome = some (.value v)) : val P.g.output = some v :=
+  (safe_reach hsw hsol h).data.out v ho
+
+/-- two executions of a switch pipeline — whatever their schedules — never return different values -/
+theorem C09_switch_values_agree (P : Program) (val : Node → Option Val) (hsw : SwP P) (hsol : SolutionSw P val)
+    (s₁ s₂ : St) (h₁ : Reach P s₁) (h₂ : Reach P s₂) (v₁ v₂ : Val) (ho₁ : s₁.outcome = some (.value v₁))
+    (ho₂ : s₂.outcome = some (.value v₂)) : v₁ = v₂ := by
+  have a := C09_switch_returned_value P val hsw hsol s₁ h₁ v₁ ho₁
+  have b := C09_switch_returned_value P val hsw hsol s₂ h₂ v₂ ho₂
+  rw [a] at b; exact Option.some.inj b
+
+/-! Non-vacuity: the demo pipeline of `Proofs/SafeDemo.lean` is a switch pipeline with a solution; a complete run of it
+(decision first, then the selected case, the consumer, the return) is exhibited, and by the theorem its value is the
+solution's: the value of case `2`, not of case `3`. -/
+
+/-- run a list of choices -/
+def runChoicesR (P : Program) : St → List Choice → Option St
+  | s, [] => some s
+  | s, c :: cs => match step P s c with
+    | some (s', _) => runChoicesR P s' cs
+    | none => none
+
+theorem reach_of_run {P : Program} : ∀ (cs : List Choice) (s s' : St), Reach P s → runChoicesR P s cs = some s' → Reach P s'
+  | [], s, s', h, hr => by simp [runChoicesR] at hr; exact hr ▸ h
+  | c :: cs, s, s', h, hr => by
+    simp only [runChoicesR] at hr
+    split at hr
+    · next s1 obs hs => exact reach_of_run cs s1 s' (.step h hs) hr
+    · cases hr
+
+def demoSwitchRun : List Choice :=
+  [.run 0 [] 0, .run 1 [0, 1, 4, 5] 0, .run 2 [] 0, .gate 0 0 1, .run 2 [] 0, .run 1 [] 0, .run 3 [] 0, .gate 1 0 1,
+   .run 3 [] 0, .run 1 [] 0, .run 4 [0, 2] 0, .run 5 [] 0, .run 6 [] 0, .gate 2 0 1, .run 6 [] 0, .run 4 [] 0,
+   .run 4 [] 0, .run 1 [] 0, .run 7 [] 0, .gate 5 0 1, .run 7 [] 0, .run 1 [] 0, .run 0 [] 0]
+
+example : ∃ s, runChoicesR demoSwitch init demoSwitchRun = some s ∧ Reach demoSwitch s ∧
+    s.sw 4 = some ("l0", 2) ∧ demoSwVal 4 = demoSwVal 2 ∧
+    ∃ v, s.outcome = some (.value v) ∧ demoSwVal demoSwitch.g.output = some v := by
+  have h : (runChoicesR demoSwitch init demoSwitchRun).isSome = true := by decide +kernel
+  obtain ⟨s, hs⟩ := Option.isSome_iff_exists.mp h
+  have hr := reach_of_run demoSwitchRun init s .init hs
+  have fact : ∀ (f : St → Bool), ((runChoicesR demoSwitch init demoSwitchRun).map f) = some true → f s = true := by
+    intro f hf; rw [hs] at hf; simpa using hf
+  have hsw4 : s.sw 4 = some ("l0", 2) := by
+    have := fact (fun s => decide (s.sw 4 = some ("l0", 2))) (by decide +kernel)
+    simpa using this
+  have hval : ∃ v, s.outcome = some (.value v) := by
+    have := fact (fun s => match s.outcome with | some (.value _) => true | _ => false) (by decide +kernel)
+    cases ho : s.outcome with
+    | none => simp [ho] at this
+    | some o => cases o <;> simp [ho] at this; exact ⟨_, rfl⟩
+  obtain ⟨v, hv⟩ := hval
+  have hdec := C09_switch_decision_is_semantic demoSwitch demoSwVal demoSwitch_swP demoSwVal_solution s hr 4 "l0" 2 hsw4
+    (by decide)
+  exact ⟨s, hs, hr, hsw4, hdec.2.2, v, hv,
+    C09_switch_returned_value demoSwitch demoSwVal demoSwitch_swP demoSwVal_solution s hr v hv⟩
 
 end MLPE.Eng
